@@ -111,7 +111,10 @@ def eval_level_s(prop, batches, known):
                 if prop in checks:
                     res['specEvaluated'] += 1
                     if checks[prop] is False:
-                        trig = [t for t in (cr.get('triggers') or []) if t in known]
+                        panicked = '"panic": "' in json.dumps(im)
+                        # a finding whose failure class is a panic explains only a panic; the others only a wrong value
+                        trig = [t for t in (cr.get('triggers') or []) if t in known and
+                                (known[t].get('failure', '').startswith('panic') == panicked)]
                         if trig:
                             for t in trig:
                                 res['known'][t] = res['known'].get(t, 0) + 1
